@@ -236,7 +236,9 @@ def execute(trace) -> CaseResult:
         if r.status in ("NO", "BAD"):
             res.nontrivial = True
         if r.n_tagged != 1:
-            if r.closed and r.n_tagged == 0:
+            if r.closed and r.n_tagged == 0 and r.bye:
+                pass  # told BYE: the session legitimately ends here
+            elif r.closed and r.n_tagged == 0:
                 v("C06.closed-without-answer", f"'{line[:60]}': connection closed with no tagged reply; raw={r.raw[-120:]!r}", sig)
             else:
                 v("C06.tagged.count", f"'{line[:60]}': {r.n_tagged} tagged replies; raw={r.raw[-160:]!r}", sig)
